@@ -179,7 +179,7 @@ Lemma receivedAck_armed st o rs l now :
 Proof.
   intros [B G] Hl Hlive Hne. unfold receivedAck. rewrite (get_space_slot st l Hl).
   destruct (sget st (slot_of l)) as [s0|] eqn:Hs0; [|congruence].
-  destruct (ack_largest rs >? spLargestSent s0); [cbn; auto|].
+  destruct ((ack_largest rs >? spLargestSent s0) || ((l =? sph_EncInitial) && (ack_lowest rs <? sIPN st))); [cbn; auto|].
   set (st_a := if sClient st && negb (sPCAV st) && ((l =? sph_EncHandshake) || (l =? sph_Enc1RTT))
                then setTimer (st_flags st true (sPAV st) (sConf st)) o now else st).
   intros BR A.
@@ -358,6 +358,6 @@ Example timer_armed_nonvacuous :
 Proof. split; [repeat constructor|vm_compute; auto]. Qed.
 
 Example exactly_once_nonvacuous :
-  let '(st, D, H) := grun w_init [] [] (w_ops ++ [(w_ack, (1125000, 3000000, 28000000))]) in
+  let '(st, D, H) := grun w_init [] [] (w_ops ++ [(OAck 4 501001000000 0 [(6, 6)], (1125000, 3000000, 28000000))]) in
   H = [1; 2] /\ D = [] /\ tracked_ids st = [] /\ sCbs st = [(1, false); (2, true)] /\ sBif st = 0.
-Proof. vm_compute. auto. Qed.
+Proof. vm_compute. repeat split; reflexivity. Qed.
